@@ -339,16 +339,6 @@ fn budget_step(policy: CredSoftLockPolicy, tmax: u64) {
 }
 
 #[kani::proof]
-fn c28_budget_password_inductive() {
-    budget_step(CredSoftLockPolicy::Password, 1 << 32);
-}
-
-#[kani::proof]
-fn c28_budget_password_t40_inductive() {
-    budget_step(CredSoftLockPolicy::Password, TMAX);
-}
-
-#[kani::proof]
 fn c28_budget_password_t24_inductive() {
     budget_step(CredSoftLockPolicy::Password, 1 << 24);
 }
